@@ -293,7 +293,7 @@ mod proofs_case {
       prev_end = end;
       i += 1;
     }
-    if len >= 4 {
+    if len >= 3 {
       kani::cover!(pieces.len() >= 2);
       kani::cover!(pieces.len() == 1);
     }
@@ -308,6 +308,16 @@ mod proofs_case {
     }
   }
 
+  #[kani::proof]
+  #[kani::unwind(10)]
+  fn c11_string_case_split_len3() {
+    check_len(3);
+  }
+  #[kani::proof]
+  #[kani::unwind(10)]
+  fn c11_string_case_split_len4() {
+    check_len(4);
+  }
   #[kani::proof]
   #[kani::unwind(10)]
   fn c11_string_case_split_4ch() {
